@@ -260,12 +260,12 @@ def planner_family(ctx, prop, mc_extra_props=(), qdeps=2):
     invs_m = PLANNER_INVS[prop]
     invs_t = TRACE_INVS[prop]
     if ctx.quick():
-        r = planner_mc(ctx, planner_consts(3, "{1,2}", "{1,3}", qdeps), invs_m, label="q")
+        r = planner_mc(ctx, planner_consts(3, "{1,2}", "{1,3}", qdeps), invs_m, label="q", properties=mc_extra_props)
         planner_s2i(ctx, r["replay"], invs_t, variants=2)
         planner_i2s(ctx, invs_t, count=40, nmin=4, nmax=40, nres=8)
         planner_i2s(ctx, invs_t, count=6, nmin=100, nmax=300, nres=14, extra=["--pbatch", 0.03], seed_off=1)
     else:
-        r = planner_mc(ctx, planner_consts(3, "{1,2}", "{1,3,5}", 2, unnamed=True), invs_m, label="t1")
+        r = planner_mc(ctx, planner_consts(3, "{1,2}", "{1,3,5}", 2, unnamed=True), invs_m, label="t1", properties=mc_extra_props)
         planner_s2i(ctx, r["replay"], invs_t, variants=2)
         r = planner_mc(ctx, planner_consts(4, "{1,2}", "{3}", 1), invs_m, label="t2")
         planner_s2i(ctx, r["replay"], invs_t, variants=2)
@@ -532,7 +532,8 @@ def check_C19(ctx):
 
 
 def check_C10(ctx):
-    planner_family(ctx, "C10")
+    # PlanStep: the algorithm refines the abstract planner Plan.tla (every registration is an admissible append)
+    planner_family(ctx, "C10", mc_extra_props=["PlanStep"])
 
 
 def check_C20(ctx):
